@@ -2,3 +2,4 @@ import LinfaSpec.Props.C01
 import LinfaSpec.Props.C02
 import LinfaSpec.Props.C05
 import LinfaSpec.Props.C07
+import LinfaSpec.Props.C08
